@@ -143,7 +143,8 @@ class L1_plus_L2(BasePenalty):
 
     def alpha_max(self, gradient0):
         """Return penalization value for which 0 is solution."""
-        return np.max(np.abs(gradient0))
+        # only the l1 part, of level l1_ratio * alpha, can hold the coefficients at 0
+        return np.max(np.abs(gradient0)) / self.l1_ratio
 
 
 class WeightedL1(BasePenalty):
